@@ -13,6 +13,7 @@ import (
 	"fmt"
 	"os"
 	"strconv"
+	"time"
 )
 
 type Nondet struct {
@@ -154,6 +155,15 @@ func Symbolic() bool { return false }
 // as a symbolic dimension: `if rt.Bool("maps-reversed") { rt.ReverseMaps(true) }`.
 // Natively the iteration order is random anyway; replays are repeated.
 func ReverseMaps(on bool) {}
+
+// FireTickers lets time pass: under the executor every live time.Ticker gets
+// one tick and all goroutines run until they block again; natively it sleeps
+// long enough for tickers with a period of a few milliseconds to fire.
+func FireTickers() { time.Sleep(100 * time.Millisecond) }
+
+// LiveGoroutines is the number of goroutines parked by the executor (blocked
+// and not finished). Natively it is unknown and reported as 0.
+func LiveGoroutines() int { return 0 }
 
 // Tier: 0 = quick, 1 = thorough.
 func Tier() int { return tier }
